@@ -29,7 +29,9 @@ def run_case(case, k):
         i = num.get(id(desc.interface))
         if i is None:
             return 1000
-        if isinstance(desc, Method):
+        if getattr(type(desc), "c15_falsy", False):
+            ok = desc.__doc__ == "d%d" % i and not bool(desc)
+        elif isinstance(desc, Method):
             ok = len(desc.getSignatureInfo()["positional"]) == i
         elif isinstance(desc, Attribute):
             ok = desc.__doc__ == "d%d" % i
